@@ -254,6 +254,23 @@ func c08General(w *core.W, j int) {
 		}
 		c08CheckMsg(w, m, "general", false)
 	}
+	// a message that is packed with its TSIG record in place (relayed or re-packed as received): the key
+	// name shares a suffix with the other names, the TSIG is the last additional record
+	{
+		g.Plain = true
+		m := genPoolMsg(g, g.Len(1, 8))
+		ts := g.Rec(model.Layouts[250])
+		key := g.Name()
+		if len(g.Pool) > 0 {
+			key = append(model.Name{[]byte("xfr-key")}, g.Pool[0]...)
+		}
+		if key.Valid() {
+			ts.Owner, ts.Class, ts.TTL = key, 255, 0
+			m.Ar = append(m.Ar, ts)
+			w.Count("messages_with_tsig_record", 1)
+			c08CheckMsg(w, m, "with-tsig-record", false)
+		}
+	}
 	// messages whose last record ends in a field of zero octets (nothing left to write at the very end)
 	for _, t := range []uint16{257, 256, 16, 99, 10, 261} {
 		l := model.Layouts[t]
